@@ -75,12 +75,14 @@ theorem tb_set_all (v value : Nat) (hval : value ≤ tbMax) :
   · rw [tb_set_preserves_other_fields _ value sPos dPos hval hs hd (Ne.symm hds), tb_get_after_set _ value dPos hval hd]
   · exact tb_get_after_set _ value sPos hval hs
 
-/-! non-vacuity: a cell with S = MATCH, D = DEL, I = YCLIP_SUFFIX (`0b0100_0010_1000`) -/
-example : setBits (setBits (setBits 0 sPos tbMatch) dPos tbDel) iPos tbYclipSuffix = 0b0100_0010_1000 := by decide
-example : getBits 0b0100_0010_1000 sPos = tbMatch ∧ getBits 0b0100_0010_1000 dPos = tbDel ∧
-    getBits 0b0100_0010_1000 iPos = tbYclipSuffix := by decide
+/-! non-vacuity (stated through the constants, so that a harmless renumbering does not break the examples): a cell with
+S = MATCH, D = DEL, I = YCLIP_SUFFIX — with the present codes `0b0100_0010_1000` — reads back field by field -/
+example :
+    let cell := setBits (setBits (setBits 0 sPos tbMatch) dPos tbDel) iPos tbYclipSuffix
+    getBits cell sPos = tbMatch ∧ getBits cell dPos = tbDel ∧ getBits cell iPos = tbYclipSuffix ∧ cell < 2 ^ cellBits := by
+  decide
 example : tbYclipSuffix ≤ tbMax ∧ sPos ∈ positions ∧ iPos ≠ sPos := by decide
-/-- the guard matters: a value above the mask spills into the next field -/
-example : getBits (setBits 0 iPos 16) dPos = 1 := by decide
+/-- the guard `value <= TB_MAX` matters: a value above the mask spills into the neighbouring field -/
+example : getBits (setBits 0 iPos (fieldMask + 1)) (iPos + 4) = 1 := by decide
 
 end RbV.Thm.GenTbCodes
